@@ -27,7 +27,8 @@ def build_cases(tier, seed, salt, budget=None, with_empty=False):
                 items.append((a2, form, False))
         if with_empty:
             for a in nncatalog.empty_geometries(name):
-                items.append((a, "functional", True))
+                a = dict(a)
+                items.append((a, a.pop("_form", "functional"), True))
         if budget and len(items) > budget:
             strata = {}
             for it in items:
